@@ -38,6 +38,9 @@ def helpers_stages(ctx):
 
 
     links_stage(ctx)
+    # the Sub helper: native SubFS or the fallback view must give the same file system (twin run against the parent)
+    graph_stage(ctx, "helpers-sub", "MC_FSCore.tla", "FSCore.quick.cfg", "fscore", ["sub=.=mem", "sub=d=mem", "sub=d=openonly", "sub=d=oshp"],
+                ["--names", "a,b", "--depth", "3", "--attr", "sub:C08,err:-,state:-,wf:-,list:-"], workers=8)
 
 
 def links_stage(ctx):
